@@ -1,6 +1,8 @@
 // ---- U-inbody: models for the "in body" insertion mode (13.2.6.4.7) ----
-pub uninterp spec fn ts_heading_tag(p: ExpandedName) -> bool;
-pub uninterp spec fn ts_list_item_scope(p: ExpandedName) -> bool;
+#[verifier::opaque]
+pub open spec fn ts_heading_tag(p: ExpandedName) -> bool { ts::heading_tag(p) }
+#[verifier::opaque]
+pub open spec fn ts_list_item_scope(p: ExpandedName) -> bool { ts::list_item_scope(p) }
 #[verifier::external_body]
 pub fn heading_tag(p: ExpandedName) -> (r: bool) ensures r == ts_heading_tag(p) { unimplemented!() }
 #[verifier::external_body]
@@ -81,7 +83,8 @@ pub open spec fn inbody_pre(tb: &TreeBuilder) -> bool {
 }
 
 // ---- the stack of template insertion modes ----
-pub uninterp spec fn ts_thorough_implied_end(p: ExpandedName) -> bool;
+#[verifier::opaque]
+pub open spec fn ts_thorough_implied_end(p: ExpandedName) -> bool { ts::thorough_implied_end(p) }
 #[verifier::external_body]
 pub fn thorough_implied_end(p: ExpandedName) -> (r: bool) ensures r == ts_thorough_implied_end(p) { unimplemented!() }
 pub open spec fn set_thorough() -> spec_fn(ExpandedName) -> bool { |p: ExpandedName| ts_thorough_implied_end(p) }
@@ -136,11 +139,13 @@ pub open spec fn w_close_template(a: &TreeBuilder, st1: Seq<Handle>, b: &TreeBui
     &&& b.mode.v == w_reset(b.stack(), b.stack().len() as int, a.context_elem.v, a.head_elem.v is Some, tmpl_mode(b))
     &&& tmpl_inv(b)
 }
-/// facts about tag sets used here (ASSUMED; instances of what U-tagsets proves: each set equals the standard's list)
-#[verifier::external_body]
-pub proof fn axiom_tagset_facts()
+/// facts about tag sets used here (PROVED from the repository's own tag-set text, module `ts`)
+pub proof fn lemma_tagset_facts()
     ensures !ts_thorough_implied_end(html_name(local_name!("template"))),
-{}
+{
+    reveal(ts_thorough_implied_end);
+    reveal(ts_cursory_implied_end);
+}
 pub proof fn lemma_implied_prefix(st: Seq<Handle>, set: spec_fn(ExpandedName) -> bool)
     ensures w_implied(st, set).len() <= st.len(), w_implied(st, set) == st.take(w_implied(st, set).len() as int),
             w_implied(st, set).len() > 0 ==> !set(elem_name_of(w_implied(st, set).last())),
